@@ -338,6 +338,7 @@ def run(ctx):
   ctx.check(bool(called) and not any(in_subtree(c, f.node) for c in called), 'C10.registration', construct(w.factory),
             'the validation runs in the factory, i.e. at registration', 'signature-level REQUIRED markers are no longer validated at registration',
             w.factory.loc(), instance='at-registration')
+  ctx.borrow('C01', 'C01.precedence', 'C10.vararg', instances={'positional-names'})     # a value beyond the named positionals belongs to *args
   ctx.borrow('C11', 'C11.signature', 'C10.registration')     # which signature / which names count as parameters
 
 
